@@ -56,22 +56,35 @@ static void run_case(const std::string& cid, Toks& t) {
         if (g_np != 1) return;
         CSRMatrix* A = s.csr();
         Vector x(s.n), b(s.n); for (int i = 0; i < s.n; i++) { x[i] = s.x0[i]; b[i] = s.b[i]; }
-        std::vector<double> res;
+        std::vector<double> res; bool hist = cid[0] == 'h';      // ids starting with h: the caller's history vector already holds entries
+        if (hist) { res.push_back(0.25); res.push_back(0.125); res.push_back(0.0625); }
         mute();
         if (op == "cg_seq") CG(A, x, b, res, s.tol, s.maxit); else BiCGStab(A, x, b, res, s.tol, s.maxit);
         unmute();
+        if (hist) { bool kept = res.size() >= 3 && res[0] == 0.25 && res[1] == 0.125 && res[2] == 0.0625;
+            printf("%s H %d\n", cid.c_str(), kept ? 1 : 0); if (res.size() >= 3) res.erase(res.begin(), res.begin() + 3); }
         printf("%s R %s\n", cid.c_str(), nums_str(res).c_str());
         printf("%s X %s\n", cid.c_str(), nums_str(x.data(), s.n).c_str());
         delete A;
-    } else if (op == "cg_par" || op == "bi_par" || op == "pcg_par" || op == "bi_par_si" || op == "bi_par_sn" || op == "bi_par_sisn") {
+    } else if (op == "cg_par" || op == "bi_par" || op == "pcg_par" || op == "prebi_par" || op == "bi_par_si" || op == "bi_par_sn" || op == "bi_par_sisn") {
         Sys s; s.parse(t);
         if (s.P != g_np) return;
         ParCSRMatrix* A = s.parcsr();
         int ln = s.sizes[g_rank], f = s.first[g_rank];
         ParVector x(s.n, ln), b(s.n, ln);
         fill_parvec(x, f, s.x0); fill_parvec(b, f, s.b);
-        std::vector<double> res;
-        if (op == "pcg_par") {
+        std::vector<double> res; bool hist = cid[0] == 'h';
+        if (hist) { res.push_back(0.25); res.push_back(0.125); res.push_back(0.0625); }
+        if (op == "prebi_par") {
+            // BiCGStab preconditioned with one AMG cycle per application (Pre_BiCGStab)
+            mute();
+            ParMultilevel* ml = new ParRugeStubenSolver(0.25, RS, Direct, Classical, Jacobi);
+            ml->max_coarse = 3; ml->num_smooth_sweeps = 1; ml->relax_weight = 0.75; ml->track_times = false;
+            ml->setup(A);
+            Pre_BiCGStab(A, x, b, ml, res, s.tol, s.maxit);
+            delete ml;
+            unmute();
+        } else if (op == "pcg_par") {
             mute();
             ParMultilevel* ml = new ParRugeStubenSolver(0.25, RS, Direct, Classical, Jacobi);
             ml->max_coarse = 3; ml->num_smooth_sweeps = 1; ml->relax_weight = 0.75; ml->track_times = false;
@@ -122,6 +135,8 @@ static void run_case(const std::string& cid, Toks& t) {
             else BiCGStab(A, x, b, res, s.tol, s.maxit);
             unmute();
         }
+        if (hist) { bool kept = res.size() >= 3 && res[0] == 0.25 && res[1] == 0.125 && res[2] == 0.0625;
+            emit_all(cid, "H", kept ? "1" : "0"); if (res.size() >= 3) res.erase(res.begin(), res.begin() + 3); }
         emit_all(cid, "R", nums_str(res));        // every rank's history (must be identical)
         emit_all(cid, "X", parvec_str(x));
         delete A;
